@@ -10,6 +10,7 @@ import (
 
 	"verifharness/c17"
 
+	"github.com/voedger/voedger/pkg/appdef"
 	"github.com/voedger/voedger/pkg/appdef/builder"
 	"github.com/voedger/voedger/pkg/parser"
 )
@@ -74,8 +75,18 @@ func pipeline(pkgs []c17.PkgText) Result {
 	if e != nil {
 		return Result{Stage: "validate", Err: e.Error()}
 	}
+	return Result{Stage: "ok", Dump: safeDump(def)}
+}
+
+// the dump is harness code: a failure in it is not the compiler's
+func safeDump(def appdef.IAppDef) (res *c17.Dump) {
+	defer func() {
+		if p := recover(); p != nil {
+			res = &c17.Dump{SysDigest: "dump failed: " + fmt.Sprint(p)}
+		}
+	}()
 	d := c17.DumpApp(def)
-	return Result{Stage: "ok", Dump: &d}
+	return &d
 }
 
 // TextObs mirrors Model.v `text_obs`
@@ -90,6 +101,7 @@ type TextObs struct {
 	Err           string   `json:"err,omitempty"`
 	Unpositioned  []string `json:"unpositioned,omitempty"`
 	NonDet        string   `json:"nondeterminism,omitempty"`
+	RuleOrder     bool     `json:"rule_order_only,omitempty"`
 }
 
 var posRe = regexp.MustCompile(`^[^\s:]+:\d+:\d+:`)
@@ -148,16 +160,21 @@ func Observe(pkgs []c17.PkgText) (TextObs, Result) {
 	if o.Hung {
 		return o, r1
 	}
-	same := func(what string, r Result, exactErr bool) {
+	same := func(what string, r Result, raw bool) {
 		switch {
 		case accepted(r) != accepted(r1) || (r.Stage == "panic") != (r1.Stage == "panic"):
 			o.Deterministic, o.NonDet = false, what+": "+r1.Stage+" vs "+r.Stage
 		case r1.Stage == "ok" && r.Stage == "ok" && !reflect.DeepEqual(c17.Canon(*r1.Dump), c17.Canon(*r.Dump)):
 			o.Deterministic, o.NonDet = false, what+": definitions differ"
+		case raw && r1.Stage == "ok" && r.Stage == "ok" && !reflect.DeepEqual(*r1.Dump, *r.Dump):
+			// exact comparison, rule order included; equal up to the order of the rules of one statement
+			// was C16-F2 (fixed 87b96bf82)
+			o.Deterministic, o.NonDet, o.RuleOrder = false, what+": ACL rule order differs", true
 		}
 	}
 	same("second compilation", compileOnce(pkgs), true)
-	if len(pkgs) > 1 || len(pkgs[0].Files) > 1 {
+	if o.Deterministic && (len(pkgs) > 1 || len(pkgs[0].Files) > 1) {
+		// statement order over files is part of the program: compared up to rule order
 		same("reversed package/file order", compileOnce(permuted(pkgs)), false)
 	}
 	return o, r1
